@@ -34,7 +34,7 @@ Record shape := {
   sh_key : bool; sh_client_id : bool;
   sh_fault : bool    (* the first storage call of the request fails (injected error or deadline) *) }.
 
-Inductive errcode := EInvalidRequest | EInvalidClient | EUnsupportedGrantType | EServerError
+Inductive errcode := EInvalidRequest | EInvalidClient | EInvalidGrant | EUnsupportedGrantType | EServerError
                    | EUnauthorizedClient | EAccessDenied | EOther | ENoCode.   (* ENoCode: not an OAuth JSON error body *)
 
 Inductive outcome :=
@@ -47,6 +47,9 @@ Inductive outcome :=
 Inductive check :=
 | CPass
 | CFail (status : nat) (c : errcode) (returns : bool)
+| CDeref (nonnil : bool)
+  (* a field is read through an optional pointer of a stored object without a nil test;
+     false = the pointer is nil *)
 | CStore (fails fatal returns : bool).
   (* a storage call: when it fails the handler either answers benignly (not fatal: introspection's
      {"active":false}) or writes an error and returns - or (defect) goes on to the next storage call *)
@@ -57,6 +60,8 @@ Fixpoint run (cs : list check) : outcome :=
   | CPass :: r => run r
   | CFail st c true :: _ => OResp st c
   | CFail _ _ false :: _ => OPanic    (* error written, then the nil request is dereferenced *)
+  | CDeref true :: r => run r
+  | CDeref false :: _ => OPanic
   | CStore false _ _ :: r => run r
   | CStore true false _ :: _ => OGrant
   | CStore true true true :: _ => OFault
@@ -150,9 +155,9 @@ Section Handlers.
 End Handlers.
 
 Definition returns (c : check) : bool :=
-  match c with CPass => true | CFail _ _ r => r | CStore _ _ r => r end.
+  match c with CPass => true | CFail _ _ r => r | CDeref ok => ok | CStore _ _ r => r end.
 Definition passes (c : check) : bool :=
-  match c with CPass => true | CStore f _ _ => negb f | _ => false end.
+  match c with CPass => true | CDeref ok => ok | CStore f _ _ => negb f | _ => false end.
 
 Definition single (o : outcome) : bool :=
   match o with OResp _ _ | OGrant | OFault => true | _ => false end.
@@ -194,3 +199,36 @@ Definition xhandler (ret_rti : bool) (x : xshape) : outcome := run (xchecks ret_
 (* the driver calls handler functions directly only for the six token grants *)
 Definition shape_wf (s : shape) : bool :=
   match sh_entry s with Direct => is_token_grant (sh_ep s) | _ => true end.
+
+
+(* ---- redeeming a live code: the PKCE stage reads the OPTIONAL code challenge of the stored request ----
+   The request is a well-formed code grant with valid client authentication, matching redirect_uri and
+   a live code of a completed flow. *)
+Inductive verifier_sent := VNone | VRight | VWrong.   (* VRight: equals the flow's verifier *)
+
+Record cshape := {
+  c_entry : entry;
+  c_public : bool;          (* client auth method none *)
+  c_stored : bool;          (* the authorization request carried a code_challenge *)
+  c_verifier : verifier_sent }.
+
+(* op.AuthorizeCodeChallenge(verifier, challenge); oidc.VerifyCodeChallenge is nil-safe.
+   [nilsafe]: the mismatch branch does not read through the (possibly nil) challenge *)
+Definition authorize_code_challenge (nilsafe : bool) (x : cshape) : list check :=
+  match c_verifier x with
+  | VNone => [CFail 400 EInvalidRequest true]
+  | v => if c_stored x && match v with VRight => true | _ => false end then [CPass]
+         else [CDeref (c_stored x || nilsafe); CFail 400 EInvalidGrant true]
+  end.
+
+Definition cchecks (nilsafe : bool) (x : cshape) : list check :=
+  match c_entry x with
+  | ViaLegacy =>     (* LegacyServer.CodeExchange *)
+      if c_public x || negb (match c_verifier x with VNone => true | _ => false end) || c_stored x
+      then authorize_code_challenge nilsafe x else []
+  | _ =>             (* AuthorizeCodeClient *)
+      (if c_stored x then authorize_code_challenge nilsafe x else [])
+      ++ [chk (negb (c_public x) || c_stored x) 400 EInvalidRequest]     (* public client: PKCE required *)
+  end.
+
+Definition chandler (nilsafe : bool) (x : cshape) : outcome := run (cchecks nilsafe x).
